@@ -28,6 +28,10 @@ def compile_pair(stmts, explicit_ctx):
     env["Array"] = Array
     for nm in ("BranchingValues", "_if", "_elif", "_else", "_endif", "_while", "_endwhile", "_breakif", "_range", "_endfor"):
         env[nm] = getattr(Br, nm)
+    # a module-level context of the usual name next to the function's own one (a helper function with a local context
+    # inside a script that has a global one): the function's blocks must act on ITS context
+    env["_"] = Br.BranchingValues()
+    env["_"].x = 1000
     exec(compile(src_o, "<oblivious>", "exec"), env)
     nenv = {"_fd": _fd, "_md": _md}
     exec(compile(src_n, "<native>", "exec"), nenv)
@@ -51,7 +55,7 @@ def _deep(x):
 
 
 def _want(w):
-    return (w[0], w[1], tuple(w[2]), w[3], float(w[4]), _deep(w[5]), tuple(w[6]))
+    return (w[0], w[1], tuple(w[2]), w[3], float(w[4]), _deep(w[5]), tuple(w[6]), _deep(w[7]))
 
 
 class TwinSkip(Exception):
@@ -132,10 +136,10 @@ def run_one(fo, fn, vec, p):
         return {"twin_error": repr(ex)}
     out = {"want": want}
     try:
-        rx, ry, ctx, rl, rk, rw, rm, ra = fo(X, Y, Bv, N, Fv)
-        out["got"] = (H.plain(rx), H.plain(ry), tuple(H.plain(rl)), H.plain(rk), _num(rw), _deep(H.plain(rm)), tuple(H.plain(ra)))
+        rx, ry, ctx, rl, rk, rw, rm, ra, rq = fo(X, Y, Bv, N, Fv)
+        out["got"] = (H.plain(rx), H.plain(ry), tuple(H.plain(rl)), H.plain(rk), _num(rw), _deep(H.plain(rm)), tuple(H.plain(ra)), _deep(H.plain(rq)))
         out["stack"] = len(ctx.stack)
-        out["mism"] = H.value_wire_mismatches([rx, ry, rl, rk, rw, rm, ra])
+        out["mism"] = H.value_wire_mismatches([rx, ry, rl, rk, rw, rm, ra, rq])
     except Exception as ex:  # noqa: BLE001
         out["exc"] = "%s: %s" % (type(ex).__name__, str(ex)[:100])
         out["exc_type"] = type(ex).__name__
@@ -199,7 +203,7 @@ def _task(t):
                 outcomes.add(r["got"])
                 r["want"] = _want(r["want"])
                 if tuple(r["got"]) != tuple(r["want"]):
-                    report("wrong-result", vec, "oblivious program ends with (x,y,l,k,w,m,a)=%s, native twin with %s" % (r["got"], r["want"]))
+                    report("wrong-result", vec, "oblivious program ends with (x,y,l,k,w,m,a,q)=%s, native twin with %s" % (r["got"], r["want"]))
                 if r["unsat"]:
                     report("unsat", vec, "constraints %s not satisfied by the recorded witness" % r["unsat"][:3])
                 if r["mism"]:
